@@ -422,9 +422,12 @@ package http2
 //@ # a leaf has none and stands for a code whose last fragment is 1..8 bits long
 //@ heapinvariant huffmanNode shape: (self.sub == nil || len(self.sub) == 256) && (self.sub == nil ==> self.codeLen >= 1 && self.codeLen <= 8)
 
+//@ # the decoding tree is built once, by the initialiser of rootHuffmanNode, and never assigned again (checked over the SSA);
+//@ # that the root is an inner node with a full table is trusted, like the shape invariant above
+//@ globalinvariant rootHuffmanNode root: self != nil && len(self.sub) == 256
+
 //@ func HuffmanDecode
 //@ props C15 C16 C03
-//@ requires root: rootHuffmanNode != nil && len(rootHuffmanNode.sub) == 256
 //@ modifies capacity(dst)
 //@ loop 0: invariant keep: len(dst) >= len(old(dst)) && dst[:len(old(dst))] == old(dst)
 //@ loop 0: invariant node: root != nil && len(root.sub) == 256 && bits >= 0 && bits < 8
